@@ -1,1 +1,165 @@
-// abstract-JSON constructors and projections
+//! lef21 values -> abstract JSON (shapes of specs/lef/LefSyntax.tla), and token list -> LEF text under a
+//! lexical variant.  Field by field, by hand; the crate's serde derives are not used (C18 tests those).
+use lef21::*;
+use rust_decimal::Decimal;
+use serde_json::{json, Value};
+
+pub fn dec(d: &Decimal) -> Value {
+    let n = d.normalize();
+    let m = n.mantissa();
+    json!({"n": m < 0, "m": m.abs() as i64, "s": n.scale()})
+}
+fn o<T, F: Fn(&T) -> Value>(x: &Option<T>, f: F) -> Value { match x { Some(v) => json!([f(v)]), None => json!([]) } }
+fn es<T: std::fmt::Display>(x: &T) -> Value { json!(x.to_string()) }
+fn pt(p: &LefPoint) -> Value { json!([dec(&p.x), dec(&p.y)]) }
+fn pts(p: &[LefPoint]) -> Value { Value::Array(p.iter().map(pt).collect()) }
+fn props(p: &[LefProperty]) -> Value { Value::Array(p.iter().map(|q| json!({"name": q.name, "value": q.value})).collect()) }
+
+fn shape(s: &LefShape, it: Option<&LefStepPattern>) -> Value {
+    let (k, m, p) = match s {
+        LefShape::Rect(m, a, b) => ("RECT", m, vec![a.clone(), b.clone()]),
+        LefShape::Polygon(m, p) => ("POLYGON", m, p.clone()),
+        LefShape::Path(m, p) => ("PATH", m, p.clone()),
+    };
+    json!({"k": k, "mask": o(m, |m| dec(&m.mask)), "pts": pts(&p),
+           "iterate": it.map(|i| json!([[dec(&i.numx), dec(&i.numy), dec(&i.spacex), dec(&i.spacey)]])).unwrap_or(json!([]))})
+}
+fn layer_geom(l: &LefLayerGeometries) -> Value {
+    json!({"layer_name": l.layer_name, "except_pg_net": o(&l.except_pg_net, |b| json!(b)),
+           "spacing": o(&l.spacing, |s| match s { LefLayerSpacing::Spacing(v) => json!({"k":"SPACING","v":dec(v)}),
+                                                   LefLayerSpacing::DesignRuleWidth(v) => json!({"k":"DESIGNRULEWIDTH","v":dec(v)}) }),
+           "width": o(&l.width, dec),
+           "geoms": l.geometries.iter().map(|g| match g { LefGeometry::Shape(s) => shape(s, None),
+                                                          LefGeometry::Iterate { shape: s, pattern } => shape(s, Some(pattern)) }).collect::<Vec<_>>(),
+           "vias": l.vias.iter().map(|v| json!({"name": v.via_name, "pt": pt(&v.pt)})).collect::<Vec<_>>()})
+}
+fn pin(p: &LefPin) -> Value {
+    json!({"name": p.name, "direction": o(&p.direction, es), "use": o(&p.use_, es), "shape": o(&p.shape, es),
+           "antenna_model": o(&p.antenna_model, es),
+           "antenna_attrs": p.antenna_attrs.iter().map(|a| json!({"key": a.key, "val": dec(&a.val), "layer": o(&a.layer, |l| json!(l))})).collect::<Vec<_>>(),
+           "taper_rule": o(&p.taper_rule, |s| json!(s)), "supply_sensitivity": o(&p.supply_sensitivity, |s| json!(s)),
+           "ground_sensitivity": o(&p.ground_sensitivity, |s| json!(s)), "must_join": o(&p.must_join, |s| json!(s)),
+           "net_expr": o(&p.net_expr, |s| json!(s)), "properties": props(&p.properties),
+           "ports": p.ports.iter().map(|q| json!({"class": o(&q.class, es), "layers": q.layers.iter().map(layer_geom).collect::<Vec<_>>()})).collect::<Vec<_>>()})
+}
+fn class(c: &LefMacroClass) -> Value {
+    match c {
+        LefMacroClass::Cover { bump } => json!({"k":"COVER","tp": if *bump { vec!["BUMP"] } else { vec![] }}),
+        LefMacroClass::Ring => json!({"k":"RING","tp":[]}),
+        LefMacroClass::Block { tp } => json!({"k":"BLOCK","tp": o(tp, es)}),
+        LefMacroClass::Pad { tp } => json!({"k":"PAD","tp": o(tp, es)}),
+        LefMacroClass::Core { tp } => json!({"k":"CORE","tp": o(tp, es)}),
+        LefMacroClass::EndCap { tp } => json!({"k":"ENDCAP","tp":[tp.to_string()]}),
+    }
+}
+fn mac(m: &LefMacro) -> Value {
+    json!({"name": m.name, "class": o(&m.class, class), "fixed_mask": m.fixed_mask,
+           "foreign": o(&m.foreign, |f| json!({"cell": f.cell_name, "pt": o(&f.pt, pt), "orient": o(&f.orient, es)})),
+           "origin": o(&m.origin, pt), "size": o(&m.size, |s| json!([dec(&s.0), dec(&s.1)])),
+           "symmetry": o(&m.symmetry, |v| json!(v.iter().map(|s| s.to_string()).collect::<Vec<_>>())),
+           "site": o(&m.site, |s| json!(s)), "source": o(&m.source, es), "eeq": o(&m.eeq, |s| json!(s)),
+           "properties": props(&m.properties),
+           "density": o(&m.density, |d| json!(d.iter().map(|l| json!({"layer_name": l.layer_name,
+                "rects": l.geometries.iter().map(|r| json!({"p1": pt(&r.pt1), "p2": pt(&r.pt2), "val": dec(&r.density_value)})).collect::<Vec<_>>()})).collect::<Vec<_>>())),
+           "obs": m.obs.iter().map(layer_geom).collect::<Vec<_>>(), "pins": m.pins.iter().map(pin).collect::<Vec<_>>()})
+}
+fn via_shape(s: &LefViaShape) -> Value {
+    match s {
+        LefViaShape::Rect(m, a, b) => json!({"k":"RECT","mask": o(m, |m| dec(&m.mask)), "pts": pts(&[a.clone(), b.clone()])}),
+        LefViaShape::Polygon(m, p) => json!({"k":"POLYGON","mask": o(m, |m| dec(&m.mask)), "pts": pts(p)}),
+    }
+}
+fn via(v: &LefViaDef) -> Value {
+    let (fixed, gen) = match &v.data {
+        LefViaDefData::Fixed(f) => (json!([{"resistance": o(&f.resistance_ohms, dec),
+            "layers": f.layers.iter().map(|l| json!({"layer_name": l.layer_name, "shapes": l.shapes.iter().map(via_shape).collect::<Vec<_>>()})).collect::<Vec<_>>()}]), json!([])),
+        LefViaDefData::Generated(g) => (json!([]), json!([{"rule": g.via_rule_name, "cutsize": [dec(&g.cut_size_x), dec(&g.cut_size_y)],
+            "layers": [g.bot_metal_layer, g.cut_layer, g.top_metal_layer], "cutspacing": [dec(&g.cut_spacing_x), dec(&g.cut_spacing_y)],
+            "enclosure": [dec(&g.bot_enc_x), dec(&g.bot_enc_y), dec(&g.top_enc_x), dec(&g.top_enc_y)],
+            "rowcol": o(&g.rowcol, |r| json!([dec(&r.rows), dec(&r.cols)])), "origin": o(&g.origin, pt),
+            "offset": o(&g.offset, |r| json!([dec(&r.bot_x), dec(&r.bot_y), dec(&r.top_x), dec(&r.top_y)]))}])),
+    };
+    json!({"name": v.name, "default": v.default, "fixed": fixed, "gen": gen})
+}
+fn propdef(p: &LefPropertyDefinition) -> Value {
+    let rng = |r: &Option<LefPropertyRange>| o(r, |r| json!([dec(&r.begin), dec(&r.end)]));
+    match p {
+        LefPropertyDefinition::LefString(ob, n, v) => json!({"obj": ob.to_string(), "name": n, "kind":"STRING", "sval": o(v, |s| json!(s)), "val": [], "range": []}),
+        LefPropertyDefinition::LefReal(ob, n, v, r) => json!({"obj": ob.to_string(), "name": n, "kind":"REAL", "sval": [], "val": o(v, dec), "range": rng(r)}),
+        LefPropertyDefinition::LefInteger(ob, n, v, r) => json!({"obj": ob.to_string(), "name": n, "kind":"INTEGER", "sval": [], "val": o(v, dec), "range": rng(r)}),
+    }
+}
+pub fn lib_json(l: &LefLibrary) -> Value {
+    json!({"version": o(&l.version, dec), "names_case_sensitive": o(&l.names_case_sensitive, es),
+           "no_wire_extension_at_pin": o(&l.no_wire_extension_at_pin, es),
+           "bus_bit_chars": o(&l.bus_bit_chars, |c| json!(format!("\"{}{}\"", c.0, c.1))),
+           "divider_char": o(&l.divider_char, |c| json!(format!("\"{}\"", c))),
+           "units": o(&l.units, |u| json!({"database_microns": o(&u.database_microns, |d| json!(d.0)), "time_ns": o(&u.time_ns, dec),
+                "capacitance_pf": o(&u.capacitance_pf, dec), "resistance_ohms": o(&u.resistance_ohms, dec), "power_mw": o(&u.power_mw, dec),
+                "current_ma": o(&u.current_ma, dec), "voltage_volts": o(&u.voltage_volts, dec), "frequency_mhz": o(&u.frequency_mhz, dec)})),
+           "manufacturing_grid": o(&l.manufacturing_grid, dec), "use_min_spacing": o(&l.use_min_spacing, es),
+           "clearance_measure": o(&l.clearance_measure, es), "fixed_mask": l.fixed_mask,
+           "property_definitions": l.property_definitions.iter().map(propdef).collect::<Vec<_>>(),
+           "extensions": l.extensions.iter().map(|e| json!({"name": e.name, "data": e.data.split_whitespace().collect::<Vec<_>>().join(" ")})).collect::<Vec<_>>(),
+           "sites": l.sites.iter().map(|s| json!({"name": s.name, "class": s.class.to_string(),
+                "symmetry": o(&s.symmetry, |v| json!(v.iter().map(|s| s.to_string()).collect::<Vec<_>>())), "size": [dec(&s.size.0), dec(&s.size.1)]})).collect::<Vec<_>>(),
+           "vias": l.vias.iter().map(via).collect::<Vec<_>>(), "macros": l.macros.iter().map(mac).collect::<Vec<_>>()})
+}
+
+/// decimal {n,m,s} -> text under spelling `sp`
+pub fn dec_text(d: &Value, sp: u32) -> String {
+    let m = d["m"].as_i64().unwrap();
+    let s = d["s"].as_u64().unwrap() as usize;
+    let neg = d["n"].as_bool().unwrap();
+    let mut digits = m.to_string();
+    while digits.len() < s + 1 { digits.insert(0, '0'); }
+    let (ip, fp) = digits.split_at(digits.len() - s);
+    let mut ip = ip.to_string();
+    let mut fp = fp.to_string();
+    match sp {
+        1 => fp.push('0'),
+        2 => if ip == "0" && !fp.is_empty() { ip.clear(); },
+        3 => fp.push_str("000"),
+        _ => {}
+    }
+    let mut t = String::new();
+    if neg { t.push('-'); }
+    t.push_str(&ip);
+    if !fp.is_empty() { t.push('.'); t.push_str(&fp); }
+    t
+}
+pub const N_KW: u32 = 3;
+pub const N_SEP: u32 = 5;
+pub const N_SP: u32 = 4;
+pub fn kw_text(w: &str, kwcase: u32) -> String {
+    match kwcase {
+        1 => w.to_ascii_lowercase(),
+        2 => w.chars().enumerate().map(|(i, c)| if i % 2 == 0 { c.to_ascii_lowercase() } else { c.to_ascii_uppercase() }).collect(),
+        _ => w.to_string(),
+    }
+}
+/// tokens -> text
+pub fn render(toks: &[Value], kwcase: u32, sep: u32, sp: u32) -> String {
+    let mut out = String::new();
+    if sep == 4 { out.push_str("# en-tête: bibliothèque 単位 ✓\n"); }
+    for (i, t) in toks.iter().enumerate() {
+        let k = t["k"].as_str().unwrap();
+        let txt = match k {
+            "kw" => kw_text(t["v"].as_str().unwrap(), kwcase),
+            "kwu" | "id" | "str" | "raw" => t["v"].as_str().unwrap().to_string(),
+            "num" => dec_text(&t["d"], (sp + if sp == 0 { 0 } else { (i % 2) as u32 * 0 }) % N_SP),
+            "semi" => ";".to_string(),
+            _ => panic!("harness: bad token kind"),
+        };
+        out.push_str(&txt);
+        let stmt_end = k == "semi";
+        match sep {
+            0 => out.push(' '),
+            1 => out.push('\n'),
+            2 => { out.push_str(if stmt_end { " \t\n\n" } else { "  \t " }); }
+            3 => { if stmt_end { out.push_str(" # end of statement ; MACRO x\n"); } else { out.push(' '); } }
+            _ => { if stmt_end || i % 7 == 3 { out.push_str(" # café 中文 ünïcödé ;\n"); } else { out.push(' '); } }
+        }
+    }
+    out
+}
